@@ -58,8 +58,17 @@ def _sqrt(v):
     return _math.sqrt(v)
 
 
+def _is_zero(v):
+    if isinstance(v, SReal):
+        if isinstance(v, symx.SqrtReal):
+            return False
+        t = z3.simplify(v.e, som=True)
+        return (z3.is_rational_value(t) or z3.is_int_value(t)) and t.as_fraction() == 0
+    return v == 0
+
+
 def _norm1(vals):
-    nz = [v for v in vals if is_sym(v) or v != 0]
+    nz = [v for v in vals if not _is_zero(v)]
     if not nz:
         return 0.0
     if len(nz) == 1:
@@ -75,6 +84,17 @@ def _inv(a):
     if a.dtype != object:
         return _np.linalg.inv(a)
     n = a.shape[0]
+    # memo per path: the same pose matrix is inverted for every object of a frame
+    key = tuple(v.e.get_id() if isinstance(v, SReal) else ("c", float(v)) for v in a.flat)
+    memo = symx.CTX.scratch.setdefault("inv", {}) if symx.CTX is not None else {}
+    if key in memo:
+        return memo[key][1].copy()
+    result = _inv_compute(a, n)
+    memo[key] = (list(a.flat), result)  # keep the entries alive so that ast ids stay unique
+    return result.copy()
+
+
+def _inv_compute(a, n):
 
     def lf(v):
         return v if isinstance(v, SReal) else SReal(symx.lift(v))
